@@ -7,7 +7,7 @@ Here the two are composed: for every bytecode, every zone size, every stack capa
 the total number of elementary steps of `Engine::run` (Model/InterpCost.lean `runCost`: decode/dispatch, skip-loop
 instructions, definition-table walks, data-opcode loop iterations) is at most
 
-    (MAX_RUN_INSTRUCTIONS + 1) × (1 + (code length + 1) + definition-table lengths + 65536 + points of both zones + stack capacity)
+    (MAX_RUN_INSTRUCTIONS + 1) × (1 + (code length + 1) + definition-table lengths + 65536 + 4 × glyph points + twilight points + 2 × stack capacity)
 
 and along the whole run the zone sizes, the contour list, the stack capacity and the definition-table lengths never
 change, the value stack stays within its capacity and `loop_counter ≤ 0xFFFF` at every dispatch — which is what keeps
@@ -27,15 +27,18 @@ open FontVerif.InterpRunLemmas
 set_option linter.unusedVariables false
 
 /-- the per-dispatch contract of a data semantics `sem` whose data state projects to the loop state `G`:
-    on a well-formed state with the stack within capacity, a successful opcode satisfies `Step` (well-formedness kept,
-    sizes unchanged, at most `work` iterations) and leaves the stack within capacity -/
-def SemOk {D} (sem : Nat → List Nat → List Int × D → Except Err (List Int × D)) (proj : D → G) : Prop :=
-  ∀ op bytes vs d vs' d', Wf (proj d) → vs.length ≤ (proj d).cap → sem op bytes (vs, d) = .ok (vs', d') →
-    Step (proj d) vs (proj d') ∧ vs'.length ≤ (proj d').cap
+    on a well-formed state with the stack within capacity (and satisfying an invariant `I` of the rest of the data
+    state), a successful opcode satisfies `Step` (well-formedness kept, sizes unchanged, at most `work` iterations),
+    leaves the stack within capacity and keeps `I` -/
+def SemOk {D} (sem : Nat → List Nat → List Int × D → Except Err (List Int × D)) (proj : D → G)
+    (I : D → Prop := fun _ => True) : Prop :=
+  ∀ op bytes vs d vs' d', I d → Wf (proj d) → vs.length ≤ (proj d).cap → sem op bytes (vs, d) = .ok (vs', d') →
+    Step (proj d) vs (proj d') ∧ vs'.length ≤ (proj d').cap ∧ I d'
 
 /-- the invariant of the whole run, relative to the sizes `g0` and table lengths `nF`, `nI` at its start -/
-structure RunInv {D} (c : Cfg D) (proj : D → G) (g0 : G) (nF nI : Nat) (s : St D) : Prop where
+structure RunInv {D} (c : Cfg D) (proj : D → G) (I : D → Prop) (g0 : G) (nF nI : Nat) (s : St D) : Prop where
   good : Good c s
+  inv : I s.data
   wf : Wf (proj s.data)
   pts : (proj s.data).glyphPts = g0.glyphPts
   twi : (proj s.data).twiPts = g0.twiPts
@@ -78,9 +81,9 @@ theorem stepCost_noins {D} (c : Cfg D) (proj : D → G) (s : St D) (hr : s.statu
   rcases hd with hd | hd <;> rw [hd]
 
 /-- one iteration of the run loop keeps the invariant and costs at most `perStep` -/
-theorem step_inv {D} (c : Cfg D) (proj : D → G) (hsem : SemOk c.sem proj) (g0 : G) (nF nI : Nat) (s : St D)
-    (h : RunInv c proj g0 nF nI s) :
-    RunInv c proj g0 nF nI (step c s) ∧ stepCost c proj s ≤ perStep c (nF + nI) g0 := by
+theorem step_inv {D} (c : Cfg D) (proj : D → G) {I : D → Prop} (hsem : SemOk c.sem proj I) (g0 : G) (nF nI : Nat) (s : St D)
+    (h : RunInv c proj I g0 nF nI s) :
+    RunInv c proj I g0 nF nI (step c s) ∧ stepCost c proj s ≤ perStep c (nF + nI) g0 := by
   have hgood := step_good c s h.good
   by_cases hr : s.status = .running
   rotate_left
@@ -98,13 +101,13 @@ theorem step_inv {D} (c : Cfg D) (proj : D → G) (hsem : SemOk c.sem proj) (g0 
     rw [stepCost_noins c proj s hr (Or.inl hd)]
     refine ⟨?_, hcost0⟩
     rw [hs] at hgood ⊢
-    exact ⟨hgood, h.wf, h.pts, h.twi, h.contours, h.cap, h.stack, h.nf, h.ni⟩
+    exact ⟨hgood, h.inv, h.wf, h.pts, h.twi, h.contours, h.cap, h.stack, h.nf, h.ni⟩
   | bad =>
     have hs : step c s = { s with status := .failed .unexpectedEnd } := by unfold step; simp only [hr, hd]
     rw [stepCost_noins c proj s hr (Or.inr hd)]
     refine ⟨?_, hcost0⟩
     rw [hs] at hgood ⊢
-    exact ⟨hgood, h.wf, h.pts, h.twi, h.contours, h.cap, h.stack, h.nf, h.ni⟩
+    exact ⟨hgood, h.inv, h.wf, h.pts, h.twi, h.contours, h.cap, h.stack, h.nf, h.ni⟩
   | ins op operands ipc next =>
     rw [stepCost_ins c proj s hr hd]
     have hctl := ctlCost_le c { s with pc := next } op
@@ -120,7 +123,7 @@ theorem step_inv {D} (c : Cfg D) (proj : D → G) (hsem : SemOk c.sem proj) (g0 
         have hdata : (step c s).data = s.data := by rw [hstep]
         refine ⟨?_, ?_⟩
         · rw [hstep] at hgood ⊢
-          exact ⟨hgood, h.wf, h.pts, h.twi, h.contours, h.cap, h.stack, h.nf, h.ni⟩
+          exact ⟨hgood, h.inv, h.wf, h.pts, h.twi, h.contours, h.cap, h.stack, h.nf, h.ni⟩
         · rw [hdata]; unfold perStep; omega
       | ok s2 =>
         rw [hdis] at hstep
@@ -135,7 +138,8 @@ theorem step_inv {D} (c : Cfg D) (proj : D → G) (hsem : SemOk c.sem proj) (g0 
         · -- control operation
           obtain ⟨c1, c2, c3, c4⟩ := hc
           simp only [] at c1 c2 c3 c4
-          refine ⟨⟨hgood, ?_, ?_, ?_, ?_, ?_, ?_, ?_, ?_⟩, ?_⟩
+          refine ⟨⟨hgood, ?_, ?_, ?_, ?_, ?_, ?_, ?_, ?_, ?_⟩, ?_⟩
+          · rw [hsd, c1]; exact h.inv
           · rw [hsd, c1]; exact h.wf
           · rw [hsd, c1]; exact h.pts
           · rw [hsd, c1]; exact h.twi
@@ -148,8 +152,9 @@ theorem step_inv {D} (c : Cfg D) (proj : D → G) (hsem : SemOk c.sem proj) (g0 
         · -- data opcode
           simp only [] at hsem1 hf hi hz
           have hstk : s.vs.length ≤ (proj s.data).cap := by rw [h.cap]; exact h.stack
-          obtain ⟨⟨hw', hit, hp, ht, hcn, hcp⟩, hstk'⟩ := hsem _ _ _ _ _ _ h.wf hstk hsem1
-          refine ⟨⟨hgood, ?_, ?_, ?_, ?_, ?_, ?_, ?_, ?_⟩, ?_⟩
+          obtain ⟨⟨hw', hit, hp, ht, hcn, hcp⟩, hstk', hI'⟩ := hsem _ _ _ _ _ _ h.inv h.wf hstk hsem1
+          refine ⟨⟨hgood, ?_, ?_, ?_, ?_, ?_, ?_, ?_, ?_, ?_⟩, ?_⟩
+          · rw [hsd]; exact hI'
           · rw [hsd]; exact hw'
           · rw [hsd, hp]; exact h.pts
           · rw [hsd, ht]; exact h.twi
@@ -160,13 +165,13 @@ theorem step_inv {D} (c : Cfg D) (proj : D → G) (hsem : SemOk c.sem proj) (g0 
           · rw [hsi, hi]; exact h.ni
           · rw [hsd, hz]
             unfold work at hit
-            rw [h.pts, h.twi] at hit
+            rw [h.pts, h.twi, h.cap] at hit
             have := h.stack
             unfold perStep; omega
 
 /-- the invariant holds along the whole run -/
-theorem iter_inv {D} (c : Cfg D) (proj : D → G) (hsem : SemOk c.sem proj) (g0 : G) (nF nI : Nat) (n : Nat) (s : St D)
-    (h : RunInv c proj g0 nF nI s) : RunInv c proj g0 nF nI (iter c n s) := by
+theorem iter_inv {D} (c : Cfg D) (proj : D → G) {I : D → Prop} (hsem : SemOk c.sem proj I) (g0 : G) (nF nI : Nat) (n : Nat) (s : St D)
+    (h : RunInv c proj I g0 nF nI s) : RunInv c proj I g0 nF nI (iter c n s) := by
   induction n generalizing s with
   | zero => exact h
   | succ n ih => exact ih _ (step_inv c proj hsem g0 nF nI s h).1
@@ -177,8 +182,8 @@ def remaining {D} (s : St D) : Nat :=
   | .running => MAX_RUN_INSTRUCTIONS + 1 - s.count
   | _ => 0
 
-theorem runCost_le_remaining {D} (c : Cfg D) (proj : D → G) (hsem : SemOk c.sem proj) (g0 : G) (nF nI : Nat) (n : Nat)
-    (s : St D) (h : RunInv c proj g0 nF nI s) :
+theorem runCost_le_remaining {D} (c : Cfg D) (proj : D → G) {I : D → Prop} (hsem : SemOk c.sem proj I) (g0 : G) (nF nI : Nat) (n : Nat)
+    (s : St D) (h : RunInv c proj I g0 nF nI s) :
     runCost c proj n s ≤ remaining s * perStep c (nF + nI) g0 := by
   induction n generalizing s with
   | zero => simp [runCost]
@@ -216,13 +221,13 @@ theorem runCost_le_remaining {D} (c : Cfg D) (proj : D → G) (hsem : SemOk c.se
     program, any definition tables, any value stack within capacity, any well-formed data state — the total number of
     elementary steps of `Engine::run`, over ANY number `n` of loop iterations, is at most
     `(MAX_RUN_INSTRUCTIONS + 1) × perStep`, `perStep = 1 + (longest program + 1) + both definition-table lengths +
-    65536 + points of both zones + stack capacity`. -/
-theorem run_total_work_le {D} (c : Cfg D) (proj : D → G) (hsem : SemOk c.sem proj)
-    (p : Nat) (fs ids : List Def) (vs : List Int) (d : D) (hw : Wf (proj d)) (hstk : vs.length ≤ (proj d).cap) (n : Nat) :
+    65536 + 4 × glyph points + twilight points + 2 × stack capacity`. -/
+theorem run_total_work_le {D} (c : Cfg D) (proj : D → G) {I : D → Prop} (hsem : SemOk c.sem proj I)
+    (p : Nat) (fs ids : List Def) (vs : List Int) (d : D) (hI : I d) (hw : Wf (proj d)) (hstk : vs.length ≤ (proj d).cap) (n : Nat) :
     runCost c proj n (initSt p fs ids vs d)
       ≤ (MAX_RUN_INSTRUCTIONS + 1) * perStep c (fs.length + ids.length) (proj d) := by
-  have hinv : RunInv c proj (proj d) fs.length ids.length (initSt p fs ids vs d) := by
-    refine ⟨initSt_good c p fs ids vs d, hw, rfl, rfl, rfl, rfl, hstk, ?_, ?_⟩
+  have hinv : RunInv c proj I (proj d) fs.length ids.length (initSt p fs ids vs d) := by
+    refine ⟨initSt_good c p fs ids vs d, hI, hw, rfl, rfl, rfl, rfl, hstk, ?_, ?_⟩
     · unfold initSt; simp only []; split <;> simp
     · unfold initSt; simp only []; split <;> simp
   have := runCost_le_remaining c proj hsem (proj d) fs.length ids.length n _ hinv
@@ -235,19 +240,19 @@ theorem run_total_work_le {D} (c : Cfg D) (proj : D → G) (hsem : SemOk c.sem p
     iterations the zone sizes, contour list, stack capacity and definition-table lengths are those of the start, the
     value stack is within capacity and `loop_counter ≤ 0xFFFF` — so the per-dispatch bounds of Props/C02Loops.lean
     apply at EVERY dispatch of the run -/
-theorem run_sizes_invariant {D} (c : Cfg D) (proj : D → G) (hsem : SemOk c.sem proj)
-    (p : Nat) (fs ids : List Def) (vs : List Int) (d : D) (hw : Wf (proj d)) (hstk : vs.length ≤ (proj d).cap) (n : Nat) :
+theorem run_sizes_invariant {D} (c : Cfg D) (proj : D → G) {I : D → Prop} (hsem : SemOk c.sem proj I)
+    (p : Nat) (fs ids : List Def) (vs : List Int) (d : D) (hI : I d) (hw : Wf (proj d)) (hstk : vs.length ≤ (proj d).cap) (n : Nat) :
     let s := iter c n (initSt p fs ids vs d)
     (proj s.data).glyphPts = (proj d).glyphPts ∧ (proj s.data).twiPts = (proj d).twiPts ∧
     (proj s.data).glyphContours = (proj d).glyphContours ∧ (proj s.data).cap = (proj d).cap ∧
     s.vs.length ≤ (proj d).cap ∧ s.funcs.length = fs.length ∧ s.idefs.length = ids.length ∧
-    (proj s.data).loop ≤ 65535 := by
-  have hinv : RunInv c proj (proj d) fs.length ids.length (initSt p fs ids vs d) := by
-    refine ⟨initSt_good c p fs ids vs d, hw, rfl, rfl, rfl, rfl, hstk, ?_, ?_⟩
+    (proj s.data).loop ≤ 65535 ∧ I s.data := by
+  have hinv : RunInv c proj I (proj d) fs.length ids.length (initSt p fs ids vs d) := by
+    refine ⟨initSt_good c p fs ids vs d, hI, hw, rfl, rfl, rfl, rfl, hstk, ?_, ?_⟩
     · unfold initSt; simp only []; split <;> simp
     · unfold initSt; simp only []; split <;> simp
   have h := iter_inv c proj hsem (proj d) fs.length ids.length n _ hinv
-  exact ⟨h.pts, h.twi, h.contours, h.cap, h.stack, h.nf, h.ni, h.wf.1⟩
+  exact ⟨h.pts, h.twi, h.contours, h.cap, h.stack, h.nf, h.ni, h.wf.1, h.inv⟩
 
 /-! ### the loop-opcode semantics honours the contract -/
 
@@ -382,7 +387,7 @@ theorem semSubset_len (ped : Bool) (op : Nat) (bytes : List Nat) (vs vs' : List 
 
 /-- the loop-opcode semantics `semLoops` (Model/InterpLoops.lean) honours the per-dispatch contract -/
 theorem semLoops_ok (ped : Bool) : SemOk (semLoops ped) id := by
-  intro op bytes vs g vs' g' hw hstk h
+  intro op bytes vs g vs' g' _ hw hstk h
   unfold semLoops at h
   simp only [] at h
   split at h
@@ -390,7 +395,7 @@ theorem semLoops_ok (ped : Bool) : SemOk (semLoops ped) id := by
     subst h
     have h1 := loop_opcode_bounded ped op vs vs' g g' hw hr
     have h2 := FontVerif.InterpLoopsLemmas.semLoopOp_len ped op vs vs' g g' hr
-    refine ⟨h1, ?_⟩
+    refine ⟨h1, ?_, trivial⟩
     simp only [id] at *
     rw [h1.2.2.2.2.2]; omega
   · cases hs : semSubset ped op bytes (vs, g.cap) with
@@ -402,7 +407,7 @@ theorem semLoops_ok (ped : Bool) : SemOk (semLoops ped) id := by
       obtain ⟨e1, e2⟩ := h0
       subst e1; subst e2
       have := semSubset_len ped op bytes vs vs1 g.cap cap1 hstk hs
-      exact ⟨step_refl g vs hw, this.1⟩
+      exact ⟨step_refl g vs hw, this.1, trivial⟩
 
 /-- **whole-run work bound for the loop-opcode model**: every program over the control opcodes, the loop-carrying data
     opcodes and the stack / arithmetic subset — started on any well-formed graphics state — performs at most
@@ -412,7 +417,7 @@ theorem run_total_work_le_loops (font cv glyph : Array Nat) (limit : Nat) (ped :
     let c : Cfg G := { font := font, cv := cv, glyph := glyph, limit := limit, pedantic := ped, sem := semLoops ped,
                        axisCount := axes }
     runCost c id n (initSt p fs ids vs g) ≤ (MAX_RUN_INSTRUCTIONS + 1) * perStep c (fs.length + ids.length) g :=
-  run_total_work_le _ id (semLoops_ok ped) p fs ids vs g hw hstk n
+  run_total_work_le _ id (semLoops_ok ped) p fs ids vs g trivial hw hstk n
 
 /-! ### non-vacuity -/
 
@@ -425,6 +430,6 @@ def workG : G := { cap := 8, twiPts := 4 }
 example : Wf workG := ⟨by decide, by decide⟩
 example : (iter workCfg 10 (initSt 1 [] [] [] workG)).status = .done := by decide +kernel
 example : runCost workCfg id 10 (initSt 1 [] [] [] workG) = 306 := by decide +kernel
-example : perStep workCfg 0 workG = 65558 := by decide +kernel
+example : perStep workCfg 0 workG = 65566 := by decide +kernel
 
 end FontVerif.C02
